@@ -330,7 +330,7 @@ def check_output(ctx, ts, kw, out, ivs, rp):
 
 
 def run(ctx, model_ok=True):
-    n = ctx.n(260, 2500)
+    n = ctx.n(400, 1200)
     cases = []
     for _ in range(n):
         ts = make_ts(ctx.rng)
@@ -374,7 +374,7 @@ def run(ctx, model_ok=True):
 
 
 def search(ctx):
-    for _ in range(ctx.n(1200, 5000)):
+    for _ in range(ctx.n(500, 3000)):
         ts = make_ts(ctx.rng)
         kw = pick_options(ctx.rng, ts)
         out = call(ts, kw)
